@@ -47,6 +47,7 @@ func c19hugeChild(c *ctx) {
 				if c19rateOKexact(p.Q, p.FI, p.Cap) {
 					ok = 1
 				}
+				c19searchRow(o, p.Cap, p.Q, p.FI)
 				o.T(fmt.Sprintf("tb.new rate=%d cap=%d q=%d fi=%d", p.Cap, p.Cap, p.Q, p.FI), fmt.Sprintf("ok rateOK=%d", ok))
 				if p.Cap > rate {
 					o.V("C19 bucket capacity is more than one second's worth of the configured rate", map[string]any{"rate": rate, "capacity": p.Cap})
